@@ -52,31 +52,56 @@ type Registration struct {
 	ArgTerms []string // terms of all constructor arguments
 	Type     types.Type
 	Entry    *ssa.Function // ProcessBuiltinFunction of the registered type
+	Env      *Env          // the function containing the Add, in its calling context below the factory method
+	Chain    []callLevel   // the calls leading from the factory method down to the Add (the Add itself last)
 }
 
-// FactoryFunc: the method of the factory type that builds the container (role: the function containing Add calls on a
-// BuiltInFunctionContainer and returning one).
+// FactoryFunc: the method of the factory type that builds the container (role: the function from which the most Add
+// calls on a BuiltInFunctionContainer are reached, directly or through helpers of the same package; among equals the
+// outermost one).
 func (p *Prog) FactoryFunc() *ssa.Function {
+	if factoryCache != nil {
+		return factoryCache
+	}
+	var count func(fn *ssa.Function, depth int, stack map[*ssa.Function]bool) int
+	count = func(fn *ssa.Function, depth int, stack map[*ssa.Function]bool) int {
+		if depth > 4 || stack[fn] {
+			return 0
+		}
+		stack[fn] = true
+		defer delete(stack, fn)
+		k := 0
+		for _, b := range fn.Blocks {
+			for _, in := range b.Instrs {
+				c, ok := in.(ssa.CallInstruction)
+				if !ok {
+					continue
+				}
+				if InvokeName(c) == "BuiltInFunctionContainer.Add" {
+					k++
+				} else if sc := c.Common().StaticCallee(); sc != nil && len(sc.Blocks) > 0 && p.InPkgs(sc, "builtInFunctions") {
+					k += count(sc, depth+1, stack)
+				}
+			}
+		}
+		return k
+	}
 	var best *ssa.Function
 	n := 0
 	for _, fn := range p.Funcs {
 		if !p.InPkgs(fn, "builtInFunctions") {
 			continue
 		}
-		k := 0
-		for _, b := range fn.Blocks {
-			for _, in := range b.Instrs {
-				if c, ok := in.(ssa.CallInstruction); ok && InvokeName(c) == "BuiltInFunctionContainer.Add" {
-					k++
-				}
-			}
-		}
-		if k > n {
+		k := count(fn, 0, map[*ssa.Function]bool{})
+		if k > n || k == n && k > 0 && best != nil && isExportedAPI(fn) && !isExportedAPI(best) {
 			n, best = k, fn
 		}
 	}
+	factoryCache = best
 	return best
 }
+
+var factoryCache *ssa.Function
 
 func traceCtor(v ssa.Value) *ssa.Call {
 	for i := 0; i < 8; i++ {
@@ -106,38 +131,48 @@ func (p *Prog) Registrations() []Registration {
 	if fn == nil {
 		return nil
 	}
-	e := p.Env(fn)
 	var out []Registration
-	for _, b := range fn.Blocks {
-		for _, in := range b.Instrs {
-			c, ok := in.(ssa.CallInstruction)
-			if !ok || InvokeName(c) != "BuiltInFunctionContainer.Add" {
-				continue
-			}
-			r := Registration{Add: c}
-			if k, ok := c.Common().Args[0].(*ssa.Const); ok && k.Value != nil && k.Value.Kind() == constant.String {
-				r.Key = constant.StringVal(k.Value)
-			}
-			if call := traceCtor(c.Common().Args[1]); call != nil {
-				r.CtorCall = call
-				r.Ctor = call.Call.StaticCallee()
-				for _, a := range call.Call.Args {
-					r.ArgTerms = append(r.ArgTerms, e.Term(a))
-					if bv, ok := boolConst(a); ok {
-						r.Flags = append(r.Flags, bv)
+	var collect func(e *Env, above []callLevel, depth int)
+	collect = func(e *Env, above []callLevel, depth int) {
+		for _, b := range e.Fn.Blocks {
+			for _, in := range b.Instrs {
+				c, ok := in.(ssa.CallInstruction)
+				if !ok {
+					continue
+				}
+				if InvokeName(c) != "BuiltInFunctionContainer.Add" {
+					// registrations moved into a helper of the factory
+					if sc := c.Common().StaticCallee(); sc != nil && len(sc.Blocks) > 0 && p.InPkgs(sc, "builtInFunctions") && depth < 4 && sc != fn {
+						collect(e.Sub(c, sc), append(append([]callLevel{}, above...), callLevel{e, c}), depth+1)
+					}
+					continue
+				}
+				r := Registration{Add: c, Env: e, Chain: append(append([]callLevel{}, above...), callLevel{e, c})}
+				if k, ok := c.Common().Args[0].(*ssa.Const); ok && k.Value != nil && k.Value.Kind() == constant.String {
+					r.Key = constant.StringVal(k.Value)
+				}
+				if call := traceCtor(c.Common().Args[1]); call != nil {
+					r.CtorCall = call
+					r.Ctor = call.Call.StaticCallee()
+					for _, a := range call.Call.Args {
+						r.ArgTerms = append(r.ArgTerms, e.Term(a))
+						if bv, ok := boolConst(a); ok {
+							r.Flags = append(r.Flags, bv)
+						}
+					}
+					if r.Ctor != nil && r.Ctor.Signature.Results().Len() > 0 {
+						r.Type = r.Ctor.Signature.Results().At(0).Type()
+						ms := p.SSA.MethodSets.MethodSet(r.Type)
+						if sel := ms.Lookup(nil, "ProcessBuiltinFunction"); sel != nil {
+							r.Entry = unwrapSynthetic(p.SSA.MethodValue(sel))
+						}
 					}
 				}
-				if r.Ctor != nil && r.Ctor.Signature.Results().Len() > 0 {
-					r.Type = r.Ctor.Signature.Results().At(0).Type()
-					ms := p.SSA.MethodSets.MethodSet(r.Type)
-					if sel := ms.Lookup(nil, "ProcessBuiltinFunction"); sel != nil {
-						r.Entry = unwrapSynthetic(p.SSA.MethodValue(sel))
-					}
-				}
+				out = append(out, r)
 			}
-			out = append(out, r)
 		}
 	}
+	collect(p.Env(fn), nil, 0)
 	sort.Slice(out, func(i, j int) bool { return out[i].Key < out[j].Key })
 	regCache = out
 	return out
